@@ -139,7 +139,17 @@ var onceTab []onceEntry
 // ResetOnceTable forgets all sync.Once instances seen so far (between runs).
 //
 //go:noinline
-func ResetOnceTable() { onceTab = onceTab[:0] }
+func ResetOnceTable() {
+	// an initialiser that is still running belongs to a goroutine that outlives
+	// the run
+	keep := onceTab[:0]
+	for _, e := range onceTab {
+		if e.s.running && !e.s.done {
+			keep = append(keep, e)
+		}
+	}
+	onceTab = keep
+}
 
 // OnceDo replaces o.Do(f). Under the simulator exactly one running task touches
 // onceTab at a time (tasks are run one at a time), so no lock is needed.
@@ -230,9 +240,12 @@ var wgTab []*wgEntry
 func ResetWGTable() {
 	keep := wgTab[:0]
 	for _, e := range wgTab {
-		if e.perm {
+		if e.perm || e.n != 0 {
 			keep = append(keep, e)
 		}
+	}
+	for i := len(keep); i < len(wgTab); i++ {
+		wgTab[i] = nil
 	}
 	wgTab = keep
 }
@@ -288,6 +301,12 @@ func WGWait(wg *sync.WaitGroup) {
 // context) are polled for real. Without the simulator every function below is
 // the plain Go operation.
 
+// GCEveryOps: collect after that many emulated channel operations (0 = never).
+var (
+	GCEveryOps int64
+	chanOps    int64
+)
+
 // Choice picks one of n alternatives (select with several ready cases). Set by
 // the simulator; nil = the first one.
 var Choice func(n int) int
@@ -323,13 +342,35 @@ var chanTab []*chanState
 
 //go:noinline
 func ResetChanTable() {
+	// Between runs: a channel somebody still waits on, or that holds values, is
+	// in use by a goroutine that outlives the run (a lazily started worker and
+	// its request channel); the others are forgotten, otherwise thousands of
+	// runs pile up dead channels.
+	live := func(q []*sudog) bool {
+		for _, sg := range q {
+			if sg.w.fired == -1 {
+				return true
+			}
+		}
+		return false
+	}
 	keep := chanTab[:0]
 	for _, c := range chanTab {
-		if c.perm {
+		if c.perm || (len(c.buf) > 0 && !c.closed) || live(c.recvq) || live(c.sendq) {
 			keep = append(keep, c)
 		}
 	}
+	for i := len(keep); i < len(chanTab); i++ {
+		chanTab[i] = nil
+	}
 	chanTab = keep
+	for i := range chanBuckets {
+		chanBuckets[i] = nil
+	}
+	for _, c := range chanTab {
+		b := chanBucket(c.key)
+		chanBuckets[b] = append(chanBuckets[b], c)
+	}
 }
 
 //go:noinline
@@ -346,12 +387,24 @@ func chanFind(k unsafe.Pointer) *chanState {
 	if k == nil {
 		return nil
 	}
-	for _, c := range chanTab {
+	for _, c := range chanBuckets[chanBucket(k)] {
 		if c.key == k {
 			return c
 		}
 	}
 	return nil
+}
+
+// chanBuckets indexes chanTab by address (plain slices: Go maps are
+// race-annotated inside the runtime, and a program may make a channel per call).
+var chanBuckets [4096][]*chanState
+
+func chanBucket(k unsafe.Pointer) int { return int((uintptr(k) >> 4) % 4093) }
+
+func chanAdd(c *chanState) {
+	chanTab = append(chanTab, c)
+	b := chanBucket(c.key)
+	chanBuckets[b] = append(chanBuckets[b], c)
 }
 
 func (c *chanState) edge() { c.mu.Lock(); c.mu.Unlock() }
@@ -369,7 +422,7 @@ func regChan(rv reflect.Value) {
 	if ForceSwitch == nil && !PreMain {
 		return
 	}
-	chanTab = append(chanTab, &chanState{key: rv.UnsafePointer(), capa: rv.Cap(), perm: PreMain})
+	chanAdd(&chanState{key: rv.UnsafePointer(), capa: rv.Cap(), perm: PreMain})
 }
 
 // MakeChan wraps make(chan T, n) in instrumented code.
@@ -506,6 +559,13 @@ func Select(hasDefault bool, cases ...SelCase) SelResult {
 	fs := ForceSwitch
 	if fs == nil {
 		return realSelect(hasDefault, cases)
+	}
+	if GCEveryOps > 0 {
+		// the harness switches the collector off while a run executes; a tree
+		// that communicates a lot allocates a lot (boxed values, wait records)
+		if chanOps++; chanOps%GCEveryOps == 0 {
+			runtime.GC()
+		}
 	}
 	n := len(cases)
 	start := 0
@@ -645,6 +705,13 @@ func closeSim(rv reflect.Value) bool {
 		panic("close of closed channel")
 	}
 	c.closed = true
+	// the real channel is closed as well (nobody uses it while the emulation
+	// owns the channel): should the table forget this channel between runs,
+	// whoever still holds it sees a closed channel, not an open one
+	func() {
+		defer func() { recover() }()
+		rv.Close()
+	}()
 	for {
 		sg := firstLive(&c.recvq)
 		if sg == nil {
@@ -704,7 +771,18 @@ type condEntry struct {
 var condTab []*condEntry
 
 //go:noinline
-func ResetCondTable() { condTab = condTab[:0] }
+func ResetCondTable() {
+	keep := condTab[:0]
+	for _, e := range condTab {
+		if len(e.q) > 0 {
+			keep = append(keep, e)
+		}
+	}
+	for i := len(keep); i < len(condTab); i++ {
+		condTab[i] = nil
+	}
+	condTab = keep
+}
 
 func condFind(c *sync.Cond) *condEntry {
 	for _, e := range condTab {
@@ -728,6 +806,15 @@ func CondWait(c *sync.Cond) {
 	e.q = append(e.q, w)
 	c.L.Unlock()
 	defer func() {
+		if !w.woken {
+			// unwound while waiting: nobody waits any more
+			for i, x := range e.q {
+				if x == w {
+					e.q = append(e.q[:i:i], e.q[i+1:]...)
+					break
+				}
+			}
+		}
 		// (also when the run is stopped while waiting: Wait returns holding L)
 		if tl, ok := c.L.(interface{ TryLock() bool }); ok {
 			for !tl.TryLock() {
@@ -792,4 +879,13 @@ func Gosched() {
 		return
 	}
 	switchNow()
+}
+
+// DebugChans describes the channel table (diagnostics of the harness).
+func DebugChans() string {
+	s := fmt.Sprintf("%d channels:", len(chanTab))
+	for _, c := range chanTab {
+		s += fmt.Sprintf(" [%p cap=%d buf=%d recvq=%d sendq=%d perm=%v closed=%v]", c.key, c.capa, len(c.buf), len(c.recvq), len(c.sendq), c.perm, c.closed)
+	}
+	return s
 }
